@@ -372,13 +372,21 @@ func runC10(c *eng.Ctx) {
 	}
 	c.Floor(4)
 	// ---- R14.6 end-of-log / not-found sentinels reach the readers' identity tests unwrapped
-	n := ruleSentinelIdentity(c, "R14.6", []string{"server.(*partition).newSubscribeLoop", cl + "(*commitLog).EarliestOffsetAfterTimestamp", cl + "(*commitLog).LatestOffsetBeforeTimestamp", cl + "(*ReverseReader).ReadMessage"},
+	n := ruleSentinelIdentity(c, "R14.6", []string{"server.(*partition).newSubscribeLoop", cl + "(*commitLog).EarliestOffsetAfterTimestamp", cl + "(*commitLog).LatestOffsetBeforeTimestamp", cl + "(*ReverseReader).ReadMessage", cl + "(*Reader).ReadMessage"},
 		"the reader takes the branch for any other error: a subscription ends with the wrong status, or a timestamp lookup fails instead of answering from the neighbouring segment")
 	c.Check(n >= 8, "reader sentinels resolved", "", "identity comparisons with end-of-log / not-found sentinels resolved to their producers", "fewer identity comparisons with reader sentinels than on the reference tree")
 	// ---- R03.10 (shared) a Read fills the buffer or fails
 	c.Rule("R03.10", "K1")
 	ruleReadFillsOrFails(c)
 	c.Floor(2)
+
+	// ---- extensions from round 3
+	c.Rule("R10.3", "K1")
+	ruleStartResolvedBeforeStop(c)
+	c.Rule("R01.10", "K5")
+	ruleScannersReturnFreshBuffers(c)
+	c.Rule("R01.8", "K5")
+	ruleReverseStartSlotUnclamped(c)
 
 }
 
